@@ -4,7 +4,8 @@ EXTENDS Sampling
 
 AllOps == {"done", "skip", "early", "done_end"}
 CfgW(nw, groups, n, ops, evo, warm) ==
-  [nw |-> nw, groups |-> groups, n |-> n, ops |-> ops, reward |-> <<2, 3, 3, 1, 2, 3, 1, 2, 3, 1, 2, 3>>, evo |-> evo, warm |-> warm]
+  [nw |-> nw, groups |-> groups, n |-> n, ops |-> ops, reward |-> <<2, 3, 3, 1, 2, 3, 1, 2, 3, 1, 2, 3>>, evo |-> evo, warm |-> warm, named |-> TRUE]
+Unnamed(c) == [c EXCEPT !.named = FALSE]
 Cfg(nw, groups, n, ops, evo) == CfgW(nw, groups, n, ops, evo, FALSE)
 
 OpMixes == {{"done"}, {"done", "skip"}, {"done", "early"}, {"done", "done_end"}}
@@ -27,11 +28,15 @@ ThreeWarm == {CfgW(3, g, 2, ops, evo, TRUE) : g \in ThreeGroups, ops \in {{"done
              \cup {CfgW(3, <<1, 1, 2>>, 2, {"done", "done_end"}, evo, TRUE) : evo \in BOOLEAN}
 ThreeWarmN3 == {CfgW(3, <<1, 2, 3>>, 3, {"done"}, evo, TRUE) : evo \in BOOLEAN} \cup {CfgW(3, <<1, 1, 2>>, 3, {"done"}, FALSE, TRUE)}
 ThreeCold == {CfgW(3, g, 2, {"done"}, evo, FALSE) : g \in {<<1, 2, 3>>, <<1, 1, 2>>}, evo \in BOOLEAN}
-QuickSet == Two(2) \cup {CfgW(2, g, 3, {"done", "skip"}, evo, TRUE) : g \in {<<1, 2>>, <<1, 1>>}, evo \in BOOLEAN}
+Boundary == {Unnamed(Cfg(2, <<1, 2>>, 2, {"done", "skip"}, evo)) : evo \in BOOLEAN}      \* name=None
+            \cup {Cfg(2, g, n, {"done", "done_end"}, FALSE) : g \in {<<1, 2>>, <<1, 1>>}, n \in {0, 1}}   \* num_examples 0, 1
+QuickSet == Two(2) \cup {CfgW(2, g, 3, {"done", "skip"}, evo, TRUE) : g \in {<<1, 2>>, <<1, 1>>}, evo \in BOOLEAN} \cup Boundary
 \* configuration sets for simulation (S->C forcing): all group assignments of 2 and 3 workers, bigger
 \* crews with representative assignments
 MixesPlus == OpMixes \cup {AllOps, {"skip", "early"}}
-SimSmall == {CfgW(2, g, n, ops, evo, warm) : g \in {<<1, 2>>, <<1, 1>>}, n \in {2, 3}, ops \in MixesPlus,
+SimEdge == {Unnamed(CfgW(nw, g, n, ops, evo, FALSE)) : nw \in {2}, g \in {<<1, 2>>, <<1, 1>>}, n \in {0, 1, 2}, ops \in OpMixes, evo \in BOOLEAN}
+           \cup {CfgW(2, g, n, ops, evo, warm) : g \in {<<1, 2>>, <<1, 1>>}, n \in {0, 1}, ops \in OpMixes, evo \in BOOLEAN, warm \in BOOLEAN}
+SimSmall == SimEdge \cup {CfgW(2, g, n, ops, evo, warm) : g \in {<<1, 2>>, <<1, 1>>}, n \in {2, 3}, ops \in MixesPlus,
                                             evo \in BOOLEAN, warm \in BOOLEAN}
             \cup {CfgW(3, g, n, ops, evo, warm) : g \in ThreeGroups, n \in {2, 3}, ops \in MixesPlus,
                                                   evo \in BOOLEAN, warm \in BOOLEAN}
